@@ -25,13 +25,17 @@ def hexOf (k : List Nat) : String := toHex (k.map UInt8.ofNat)
 
 def bytesOf? (s : String) : Option (List Nat) := (hexBytes? s).map (·.map (fun (b : UInt8) => b.toNat))
 
-/-- `votes:nodekey` or `rights:nodekey:ownerkey` -/
+/-- `votes:nodekey`, `rights:nodekey:ownerkey` or `rights:nodekey:ownerkey:records` (the rights of the
+    records — Σ floor(votes·weight), computed and re-checked by the Go side — are the first field) -/
 def prod? (t : String) : Option (Producer × List Nat) :=
   match t.splitOn ":" with
   | [v, k] => match int? v, bytesOf? k with
     | some v, some k => some (⟨v, k⟩, k)
     | _, _ => none
   | [v, k, o] => match int? v, bytesOf? k, bytesOf? o with
+    | some v, some k, some o => some (⟨v, k⟩, o)
+    | _, _, _ => none
+  | [v, k, o, _stakes] => match int? v, bytesOf? k, bytesOf? o with
     | some v, some k, some o => some (⟨v, k⟩, o)
     | _, _, _ => none
   | _ => none
@@ -62,7 +66,7 @@ def stepC24 : List String → String
       match ps.mapM prod? with
       | some l => " ".intercalate ((sortProducers l).map (fun (p : Producer × List Nat) => hexOf p.1.key))
       | none => "bad-op"
-  | "randv2" :: seed :: normal :: crc :: unclaimed :: draws :: env :: _blk :: ps =>
+  | "randv2" :: seed :: normal :: crc :: unclaimed :: draws :: env :: _blk :: _tip :: ps =>
       match int? seed, nat? normal, nat? crc, nat? unclaimed, natList? draws, envOps? env, ps.mapM prod? with
       | some seed, some normal, some crc, some unclaimed, some draws, some env, some l =>
           let owners := ((sortProducers l).drop unclaimed).map (fun (p : Producer × List Nat) => p.2)
